@@ -382,8 +382,11 @@ where
                     evals.insert((llabel(*lab), pts[*pj].clone()), v);
                 }
                 out.obs(&format!("evals.{}", t), "F", &fs_to_strs(&evals.values().cloned().collect::<Vec<_>>()));
+                let _ = A::take_hash_log();
                 let r = guard_any(|| A::PC::open_combinations(&ck, lcv.iter(), pperm.iter().map(|i| &polys[*i]), pperm.iter().map(|i| &comms[*i]),
                     &qs, &mut ps, pperm.iter().map(|i| &states[*i]), Some(&mut orng)));
+                { let hl = A::take_hash_log(); if !hl.is_empty() { out.input(&format!("hchal.{}", t), &hl); } }
+                if let Some(cum) = &open_cum { out.obs1(&format!("open_draws.{}", t), "N", draws_of(cum, orng.bytes).to_string()); }
                 out.obs1(&format!("open.{}", t), "S", r.class());
                 rec.lcs = lcs.clone(); rec.lqs = tr3.clone();
                 if let Some(lp) = r.ok() {
@@ -397,6 +400,7 @@ where
                         for (k, pf) in pv.iter().enumerate() { A::proof_obs(&format!("pf.{}.{}", t, k), pf, out); }
                     }
                     let d = guard_any(|| A::PC::check_combinations(&vk, lcv.iter(), vperm.iter().map(|i| &comms[*i]), &qs, &evals, &lp, &mut vs, &mut vrng));
+                    { let hl = A::take_hash_log(); if !hl.is_empty() { out.input(&format!("vhchal.{}", t), &hl); } }
                     out.obs1(&format!("check.{}", t), "S", decision(&d));
                     out.obs1(&format!("check_rng_bytes.{}", t), "N", vrng.bytes.to_string());
                     rec.lcproof = Some(lp);
